@@ -84,115 +84,326 @@ theorem guessOf_symCtx (c : RCtx) : (guessOf c).symCtx = c.symCtx := rfl
 theorem guessOf_bank (c : RCtx) : (guessOf c).bank = c.bank := rfl
 theorem guessOf_first (c : RCtx) : (guessOf c).first = c.first := rfl
 
-/-- the loop of an `asm` block: the inner passes run with their own flags, the outer mode only
-    decides what an unconverged block yields (`Unknown` or an error) -/
-theorem asmIterate_mono (st : Static) (defs : Defs) :
-    ∀ (fuel : Nat) (c : RCtx) (nodes : List AstNode) (ectx : ECtx) (labels : List (String × Value)) (budget iter : Nat) (v : Value),
-      asmIterate st defs fuel c nodes ectx labels budget iter = .ok v →
-      asmIterate st defs fuel (guessOf c) nodes ectx labels budget iter = .ok v := by
-  intro fuel
-  induction fuel with
-  | zero => intro c nodes ectx labels budget iter v h; simp [asmIterate] at h
-  | succ f ih =>
-    intro c nodes ectx labels budget iter v h
-    have fin : ∀ (lb : List (String × Value)),
-        (match asmOnce st defs f { c with first := false, last := true } nodes ectx lb c.cur ⟨0, some 0⟩ false with
-          | .error e => (Except.error e : Except String Value)
-          | .ok (v, unstable, _) => if !unstable then .ok v else if c.canGuess then .ok .unknown else .error "`asm` block did not converge") = .ok v →
-        (match asmOnce st defs f { c with first := false, last := true } nodes ectx lb c.cur ⟨0, some 0⟩ false with
-          | .error e => (Except.error e : Except String Value)
-          | .ok (v, unstable, _) => if !unstable then .ok v else if (guessOf c).canGuess then .ok .unknown else .error "`asm` block did not converge") = .ok v := by
-      intro lb hh
-      cases ho : asmOnce st defs f { c with first := false, last := true } nodes ectx lb c.cur ⟨0, some 0⟩ false with
-      | error e => rw [ho] at hh; cases hh
-      | ok x =>
-        obtain ⟨v', unstable, lbs⟩ := x
-        rw [ho] at hh
-        simp only at hh ⊢
-        cases unstable with
-        | false => simpa using hh
-        | true =>
-          simp only [Bool.not_true, Bool.false_eq_true, if_false, guessOf_canGuess, if_true] at hh ⊢
-          split at hh
-          · exact hh
-          · cases hh
-    simp only [asmIterate, guessOf_cur, guessOf_symCtx, guessOf_bank] at h ⊢
+/-- what a pass chooses, a guessing pass chooses too (and reports nothing) -/
+theorem chooseEncoding_guess' (g : Bool) (rs : List Resolution) (encs : List (Nat × BI)) (rep : List String)
+    (h : chooseEncoding g rs = (some encs, rep)) : chooseEncoding true rs = (some encs, []) := by
+  unfold chooseEncoding at h ⊢
+  simp only at h ⊢
+  split at h
+  · split at h <;> (injection h with h1 _; cases h1)
+  · rename_i hne
+    simp only [hne, if_false]
     split at h
-    · rename_i hgt
-      simp only [hgt, if_true]
-      exact fin labels h
-    · rename_i hgt
-      simp only [hgt, if_false]
-      cases ho : asmOnce st defs f { c with first := iter == 1, last := iter == budget } nodes ectx labels c.cur ⟨0, some 0⟩ false with
-      | error e => rw [ho] at h; cases h
-      | ok x =>
-        obtain ⟨v', unstable, lbs⟩ := x
-        rw [ho] at h
-        simp only at h ⊢
-        cases unstable with
-        | false =>
-          simp only [Bool.not_false, if_true] at h ⊢
-          exact fin lbs h
-        | true =>
-          simp only [Bool.not_true, Bool.false_eq_true, if_false] at h ⊢
-          exact ih c nodes ectx lbs budget (iter + 1) v h
+    · injection h with h1 _; cases h1
+    · injection h with h1 _
+      simp only [Bool.not_true, Bool.false_and, Bool.false_eq_true, if_false]
+      injection h1 with h1
+      rw [h1]
 
-theorem evalAsm_mono (st : Static) (defs : Defs) (fuel : Nat) (c : RCtx) (text : List Char) (ectx : ECtx) (v : Value)
-    (h : evalAsm st defs fuel c text ectx = .ok v) : evalAsm st defs fuel (guessOf c) text ectx = .ok v := by
-  cases fuel with
-  | zero => simp [evalAsm] at h
-  | succ f =>
-    simp only [evalAsm] at h ⊢
-    split at h
-    · cases h
-    · rename_i hd
-      simp only [hd, if_false]
-      split at h
-      · cases h
-      · rename_i nodes s hp
-        generalize List.foldl _ (Except.ok ([] : List (String × Value))) nodes = chk at h ⊢
-        cases chk with
-        | error e => cases h
-        | ok labels => exact asmIterate_mono st defs f c nodes ectx labels _ 1 v h
+/-- the statements proved together, level by level of the fuel -/
+structure MonoFam (st : Static) (defs : Defs) (f : Nat) : Prop where
+  env : ∀ c, EnvLe (mkEnv st defs f c) (mkEnv st defs f (guessOf c))
+  mtch : ∀ c m argCtx r, resolveMatch st defs f c m argCtx = .ok r → resolveMatch st defs f (guessOf c) m argCtx = .ok r
+  args : ∀ c rule args i argCtx ruleCtx r, resolveArgs st defs f c rule args i argCtx ruleCtx = .ok r →
+        resolveArgs st defs f (guessOf c) rule args i argCtx ruleCtx = .ok r
+  mtchs : ∀ c ms argCtx acc r, resolveMatches st defs f c ms argCtx acc = .ok r →
+        resolveMatches st defs f (guessOf c) ms argCtx acc = .ok r
+  renc : ∀ c ms argCtx encs rep, resolveEncoding st defs f c ms argCtx = .ok (some encs, rep) →
+        resolveEncoding st defs f (guessOf c) ms argCtx = .ok (some encs, [])
+  once : ∀ c nodes ectx labels cur result unstable r, asmOnce st defs f c nodes ectx labels cur result unstable = .ok r →
+        asmOnce st defs f (guessOf c) nodes ectx labels cur result unstable = .ok r
+  iter : ∀ c nodes ectx labels budget it v, asmIterate st defs f c nodes ectx labels budget it = .ok v →
+        asmIterate st defs f (guessOf c) nodes ectx labels budget it = .ok v
+  asm : ∀ c text ectx v, evalAsm st defs f c text ectx = .ok v → evalAsm st defs f (guessOf c) text ectx = .ok v
 
-/-- **the resolver's environment in strict mode is below the one in guessing mode** -/
-theorem mkEnv_le (st : Static) (defs : Defs) :
-    ∀ (fuel : Nat) (c : RCtx), EnvLe (mkEnv st defs fuel c) (mkEnv st defs fuel (guessOf c)) := by
-  intro fuel
-  induction fuel with
-  | zero =>
-    intro c
+theorem monoFam_zero (st : Static) (defs : Defs) : MonoFam st defs 0 := by
+  refine ⟨?_, ?_, ?_, ?_, ?_, ?_, ?_, ?_⟩
+  · intro c
     refine ⟨?_, ?_, ?_⟩
     · intro l p v h; simp only [mkEnv] at h ⊢; exact evalVariable_mono st defs c l p v h
     · intro f a cx v h; simp [mkEnv] at h
     · intro t cx v h; simp [mkEnv] at h
-  | succ f ih =>
-    intro c
-    refine ⟨?_, ?_, ?_⟩
-    · intro l p v h; simp only [mkEnv] at h ⊢; exact evalVariable_mono st defs c l p v h
-    · intro fv a cx v h
-      simp only [mkEnv] at h ⊢
-      cases fv with
-      | fn idx =>
-        simp only at h ⊢
+  · intro c m argCtx r h; simp [resolveMatch] at h
+  · intro c rule args i argCtx ruleCtx r h; simp [resolveArgs] at h
+  · intro c ms argCtx acc r h; simp [resolveMatches] at h
+  · intro c ms argCtx encs rep h; simp [resolveEncoding] at h
+  · intro c nodes ectx labels cur result unstable r h; simp [asmOnce] at h
+  · intro c nodes ectx labels budget it v h; simp [asmIterate] at h
+  · intro c text ectx v h; simp [evalAsm] at h
+
+theorem monoFam_env (st : Static) (defs : Defs) (f : Nat) (ih : MonoFam st defs f) :
+    ∀ c, EnvLe (mkEnv st defs (f + 1) c) (mkEnv st defs (f + 1) (guessOf c)) := by
+  intro c
+  refine ⟨?_, ?_, ?_⟩
+  · intro l p v h; simp only [mkEnv] at h ⊢; exact evalVariable_mono st defs c l p v h
+  · intro fv a cx v h
+    simp only [mkEnv] at h ⊢
+    cases fv with
+    | fn idx =>
+      simp only at h ⊢
+      split at h
+      · cases h
+      · rename_i hd
+        simp only [hd, if_false]
         split at h
         · cases h
-        · rename_i hd
-          simp only [hd, if_false]
+        · rename_i ha
+          simp only [ha, if_false]
+          cases he : eval (mkEnv st defs f c) _ (defs.fns.getD idx default).body with
+          | error e => rw [he] at h; cases h
+          | ok r =>
+            rw [he] at h
+            rw [eval_mono _ _ (ih.env c) _ _ r he]
+            exact h
+    | _ => exact h
+  · intro t cx v h
+    simp only [mkEnv] at h ⊢
+    exact ih.asm c t cx v h
+
+theorem monoFam_mtch (st : Static) (defs : Defs) (f : Nat) (ih : MonoFam st defs f) :
+    ∀ c m argCtx r, resolveMatch st defs (f + 1) c m argCtx = .ok r → resolveMatch st defs (f + 1) (guessOf c) m argCtx = .ok r := by
+  intro c m argCtx r h
+  simp only [resolveMatch] at h ⊢
+  cases ha : resolveArgs st defs f c ((defs.ruledefs.getD m.ruledef default).rules.getD m.rule default) m.args 0 argCtx argCtx.deepened with
+  | error e => rw [ha] at h; cases h
+  | ok x =>
+    rw [ha] at h
+    rw [ih.args _ _ _ _ _ _ _ ha]
+    obtain ⟨sv, ac⟩ := x
+    cases sv with
+    | inl v => exact h
+    | inr ruleCtx =>
+      simp only at h ⊢
+      cases he : eval (mkEnv st defs f c) ruleCtx ((defs.ruledefs.getD m.ruledef default).rules.getD m.rule default).expr with
+      | error e => rw [he] at h; cases h
+      | ok y =>
+        rw [he] at h
+        rw [eval_mono _ _ (ih.env c) _ _ y he]
+        exact h
+
+theorem monoFam_args (st : Static) (defs : Defs) (f : Nat) (ih : MonoFam st defs f) :
+    ∀ c rule args i argCtx ruleCtx r, resolveArgs st defs (f + 1) c rule args i argCtx ruleCtx = .ok r →
+        resolveArgs st defs (f + 1) (guessOf c) rule args i argCtx ruleCtx = .ok r := by
+  intro c rule args i argCtx ruleCtx r h
+  cases args with
+  | nil => simp only [resolveArgs] at h ⊢; exact h
+  | cons a rest =>
+    cases a with
+    | expr e s1 s2 ex =>
+      simp only [resolveArgs] at h ⊢
+      cases he : eval (mkEnv st defs f c) argCtx e with
+      | error m => rw [he] at h; cases h
+      | ok y =>
+        obtain ⟨v, ac⟩ := y
+        rw [he] at h
+        rw [eval_mono _ _ (ih.env c) _ _ _ he]
+        simp only at h ⊢
+        split at h
+        · rename_i hp; simp only [hp, if_true]; exact h
+        · rename_i hp
+          simp only [hp, if_false]
           split at h
           · cases h
-          · rename_i ha
-            simp only [ha, if_false]
-            cases he : eval (mkEnv st defs f c) _ (defs.fns.getD idx default).body with
+          · rename_i cv hcv
+            split at h
+            · rename_i hp2; simp only [hp2, if_true]; exact h
+            · rename_i hp2
+              simp only [hp2, if_false]
+              exact ih.args _ _ _ _ _ _ _ h
+    | nested nm s1 s2 ex =>
+      simp only [resolveArgs] at h ⊢
+      cases hm : resolveMatch st defs f c nm argCtx with
+      | error m => rw [hm] at h; cases h
+      | ok y =>
+        obtain ⟨v, ac⟩ := y
+        rw [hm] at h
+        rw [ih.mtch _ _ _ _ hm]
+        simp only at h ⊢
+        split at h
+        · rename_i hp; simp only [hp, if_true]; exact h
+        · rename_i hp
+          simp only [hp, if_false]
+          exact ih.args _ _ _ _ _ _ _ h
+
+theorem monoFam_mtchs (st : Static) (defs : Defs) (f : Nat) (ih : MonoFam st defs f) :
+    ∀ c ms argCtx acc r, resolveMatches st defs (f + 1) c ms argCtx acc = .ok r →
+        resolveMatches st defs (f + 1) (guessOf c) ms argCtx acc = .ok r := by
+  intro c ms argCtx acc r h
+  cases ms with
+  | nil => simp only [resolveMatches] at h ⊢; exact h
+  | cons m rest =>
+    simp only [resolveMatches] at h ⊢
+    cases hm : resolveMatch st defs f c m argCtx with
+    | error e => rw [hm] at h; cases h
+    | ok y =>
+      obtain ⟨v, ac⟩ := y
+      rw [hm] at h
+      rw [ih.mtch _ _ _ _ hm]
+      simp only at h ⊢
+      split at h
+      · cases h
+      · rename_i rr hrr
+        exact ih.mtchs _ _ _ _ _ h
+
+theorem monoFam_renc (st : Static) (defs : Defs) (f : Nat) (ih : MonoFam st defs f) :
+    ∀ c ms argCtx encs rep, resolveEncoding st defs (f + 1) c ms argCtx = .ok (some encs, rep) →
+        resolveEncoding st defs (f + 1) (guessOf c) ms argCtx = .ok (some encs, []) := by
+  intro c ms argCtx encs rep h
+  simp only [resolveEncoding] at h ⊢
+  cases hm : resolveMatches st defs f c ms argCtx [] with
+  | error e => rw [hm] at h; cases h
+  | ok x =>
+    obtain ⟨rs, cx⟩ := x
+    rw [hm] at h
+    rw [ih.mtchs _ _ _ _ _ hm]
+    simp only at h ⊢
+    injection h with h
+    rw [guessOf_canGuess, chooseEncoding_guess' _ rs encs rep h]
+
+theorem monoFam_once (st : Static) (defs : Defs) (f : Nat) (ih : MonoFam st defs f) :
+    ∀ c nodes ectx labels cur result unstable r, asmOnce st defs (f + 1) c nodes ectx labels cur result unstable = .ok r →
+        asmOnce st defs (f + 1) (guessOf c) nodes ectx labels cur result unstable = .ok r := by
+  intro c nodes ectx labels cur result unstable r h
+  cases nodes with
+  | nil => simp only [asmOnce] at h ⊢; exact h
+  | cons node rest =>
+    cases node with
+    | symbol lv name kind ne ref =>
+      simp only [asmOnce] at h ⊢
+      have hcx : ({ guessOf c with cur := cur } : RCtx) = guessOf { c with cur := cur } := rfl
+      cases ha : evalAddress defs { c with cur := cur } true with
+      | error e => rw [ha] at h; cases h
+      | ok a =>
+        rw [ha] at h
+        rw [hcx, evalAddress_mono defs _ _ a ha]
+        simp only at h ⊢
+        exact ih.once _ _ _ _ _ _ _ _ h
+    | instr src ref =>
+      simp only [asmOnce] at h ⊢
+      cases hs : parseSubsts (src.length + 1) src 0 [] with
+      | error e => rw [hs] at h; cases h
+      | ok substs =>
+        rw [hs] at h
+        simp only at h ⊢
+        cases hp : performSubsts src substs ectx with
+        | error e => rw [hp] at h; cases h
+        | ok excerpt =>
+          rw [hp] at h
+          simp only at h ⊢
+          split at h
+          · cases h
+          · rename_i hne
+            simp only [hne, if_false]
+            have hcx : ({ guessOf c with cur := cur } : RCtx) = guessOf { c with cur := cur } := rfl
+            rw [hcx]
+            cases he : resolveEncoding st defs f { c with cur := cur } (matchInstr st.opts.optMatcher defs.ruledefs excerpt)
+                (labels.foldl (fun c p => c.setLocal p.1 p.2) (hygienize ectx)) with
             | error e => rw [he] at h; cases h
-            | ok r =>
+            | ok x =>
+              obtain ⟨encs, rep⟩ := x
               rw [he] at h
-              rw [eval_mono _ _ (ih c) _ _ r he]
-              exact h
-      | _ => exact h
-    · intro t cx v h
-      simp only [mkEnv] at h ⊢
-      exact evalAsm_mono st defs f c t cx v h
+              cases encs with
+              | some l =>
+                rw [ih.renc _ _ _ _ _ he]
+                simp only at h ⊢
+                exact ih.once _ _ _ _ _ _ _ _ h
+              | none =>
+                simp only at h
+                by_cases hl : c.last = true
+                · have : ({ c with cur := cur } : RCtx).canGuess = false := by simp [RCtx.canGuess, hl]
+                  rw [this] at h
+                  simp at h
+                · have hl' : c.last = false := by simpa using hl
+                  have hg : guessOf ({ c with cur := cur } : RCtx) = { c with cur := cur } := by
+                    cases c; simp only [guessOf] at hl' ⊢; rw [hl']
+                  rw [hg, he]
+                  have hgc : guessOf c = c := by
+                    cases c; simp only [guessOf] at hl' ⊢; rw [hl']
+                  rw [hgc]
+                  exact h
+    | _ => simp only [asmOnce] at h ⊢; exact h
+
+theorem monoFam_iter (st : Static) (defs : Defs) (f : Nat) (ih : MonoFam st defs f) :
+    ∀ c nodes ectx labels budget it v, asmIterate st defs (f + 1) c nodes ectx labels budget it = .ok v →
+        asmIterate st defs (f + 1) (guessOf c) nodes ectx labels budget it = .ok v := by
+  intro c nodes ectx labels budget iter v h
+  have fin : ∀ (lb : List (String × Value)),
+      (match asmOnce st defs f { c with first := false, last := c.last } nodes ectx lb c.cur ⟨0, some 0⟩ false with
+        | .error e => (Except.error e : Except String Value)
+        | .ok (v, unstable, _) => if !unstable then .ok v else if c.canGuess then .ok .unknown else .error "`asm` block did not converge") = .ok v →
+      (match asmOnce st defs f (guessOf { c with first := false, last := c.last }) nodes ectx lb c.cur ⟨0, some 0⟩ false with
+        | .error e => (Except.error e : Except String Value)
+        | .ok (v, unstable, _) => if !unstable then .ok v else if (guessOf c).canGuess then .ok .unknown else .error "`asm` block did not converge") = .ok v := by
+    intro lb hh
+    cases ho : asmOnce st defs f { c with first := false, last := c.last } nodes ectx lb c.cur ⟨0, some 0⟩ false with
+    | error e => rw [ho] at hh; cases hh
+    | ok x =>
+      obtain ⟨v', unstable, lbs⟩ := x
+      rw [ho] at hh
+      rw [ih.once _ _ _ _ _ _ _ _ ho]
+      simp only at hh ⊢
+      cases unstable with
+      | false => simpa using hh
+      | true =>
+        simp only [Bool.not_true, Bool.false_eq_true, if_false, guessOf_canGuess, if_true] at hh ⊢
+        split at hh
+        · exact hh
+        · cases hh
+  simp only [asmIterate, guessOf_cur, guessOf_symCtx, guessOf_bank] at h ⊢
+  split at h
+  · rename_i hgt
+    simp only [hgt, if_true]
+    exact fin labels h
+  · rename_i hgt
+    simp only [hgt, if_false]
+    cases ho : asmOnce st defs f { c with first := iter == 1, last := c.last && iter == budget } nodes ectx labels c.cur ⟨0, some 0⟩ false with
+    | error e => rw [ho] at h; cases h
+    | ok x =>
+      obtain ⟨v', unstable, lbs⟩ := x
+      rw [ho] at h
+      have ho' : asmOnce st defs f { first := iter == 1, last := (guessOf c).last && iter == budget, symCtx := c.symCtx, bank := c.bank, cur := c.cur }
+          nodes ectx labels c.cur ⟨0, some 0⟩ false = .ok (v', unstable, lbs) := ih.once _ _ _ _ _ _ _ _ ho
+      rw [ho']
+      simp only at h ⊢
+      cases unstable with
+      | false =>
+        simp only [Bool.not_false, if_true] at h ⊢
+        exact fin lbs h
+      | true =>
+        simp only [Bool.not_true, Bool.false_eq_true, if_false] at h ⊢
+        exact ih.iter c nodes ectx lbs budget (iter + 1) v h
+
+theorem monoFam_asm (st : Static) (defs : Defs) (f : Nat) (ih : MonoFam st defs f) :
+    ∀ c text ectx v, evalAsm st defs (f + 1) c text ectx = .ok v → evalAsm st defs (f + 1) (guessOf c) text ectx = .ok v := by
+  intro c text ectx v h
+  simp only [evalAsm] at h ⊢
+  split at h
+  · cases h
+  · rename_i hd
+    simp only [hd, if_false]
+    split at h
+    · cases h
+    · rename_i nodes s hp
+      generalize List.foldl _ (Except.ok ([] : List (String × Value))) nodes = chk at h ⊢
+      cases chk with
+      | error e => cases h
+      | ok labels => exact ih.iter c nodes ectx labels _ 1 v h
+
+theorem monoFam (st : Static) (defs : Defs) : ∀ f, MonoFam st defs f := by
+  intro f
+  induction f with
+  | zero => exact monoFam_zero st defs
+  | succ f ih =>
+    exact ⟨monoFam_env st defs f ih, monoFam_mtch st defs f ih, monoFam_args st defs f ih, monoFam_mtchs st defs f ih,
+      monoFam_renc st defs f ih, monoFam_once st defs f ih, monoFam_iter st defs f ih, monoFam_asm st defs f ih⟩
+
+/-- **the resolver's environment in strict mode is below the one in guessing mode** -/
+theorem mkEnv_le (st : Static) (defs : Defs) (fuel : Nat) (c : RCtx) :
+    EnvLe (mkEnv st defs fuel c) (mkEnv st defs fuel (guessOf c)) := (monoFam st defs fuel).env c
+
+theorem evalAsm_mono (st : Static) (defs : Defs) (fuel : Nat) (c : RCtx) (text : List Char) (ectx : ECtx) (v : Value)
+    (h : evalAsm st defs fuel c text ectx = .ok v) : evalAsm st defs fuel (guessOf c) text ectx = .ok v :=
+  (monoFam st defs fuel).asm c text ectx v h
 
 theorem resolverEval_mono (st : Static) (defs : Defs) (c : RCtx) (ectx : ECtx) (e : Expr) (r : Value × ECtx)
     (h : resolverEval st defs c ectx e = .ok r) : resolverEval st defs (guessOf c) ectx e = .ok r := by
@@ -206,91 +417,8 @@ theorem resolveMatch_family_mono (st : Static) (defs : Defs) :
       (∀ c rule args i argCtx ruleCtx r, resolveArgs st defs fuel c rule args i argCtx ruleCtx = .ok r →
         resolveArgs st defs fuel (guessOf c) rule args i argCtx ruleCtx = .ok r) ∧
       (∀ c ms argCtx acc r, resolveMatches st defs fuel c ms argCtx acc = .ok r →
-        resolveMatches st defs fuel (guessOf c) ms argCtx acc = .ok r) := by
-  intro fuel
-  induction fuel with
-  | zero =>
-    refine ⟨?_, ?_, ?_⟩
-    · intro c m argCtx r h; simp [resolveMatch] at h
-    · intro c rule args i argCtx ruleCtx r h; simp [resolveArgs] at h
-    · intro c ms argCtx acc r h; simp [resolveMatches] at h
-  | succ f ih =>
-    obtain ⟨ihM, ihA, ihMs⟩ := ih
-    refine ⟨?_, ?_, ?_⟩
-    · intro c m argCtx r h
-      simp only [resolveMatch] at h ⊢
-      cases ha : resolveArgs st defs f c ((defs.ruledefs.getD m.ruledef default).rules.getD m.rule default) m.args 0 argCtx argCtx.deepened with
-      | error e => rw [ha] at h; cases h
-      | ok x =>
-        rw [ha] at h
-        rw [ihA _ _ _ _ _ _ _ ha]
-        obtain ⟨sv, ac⟩ := x
-        cases sv with
-        | inl v => exact h
-        | inr ruleCtx =>
-          simp only at h ⊢
-          cases he : eval (mkEnv st defs f c) ruleCtx ((defs.ruledefs.getD m.ruledef default).rules.getD m.rule default).expr with
-          | error e => rw [he] at h; cases h
-          | ok y =>
-            rw [he] at h
-            rw [eval_mono _ _ (mkEnv_le st defs f c) _ _ y he]
-            exact h
-    · intro c rule args i argCtx ruleCtx r h
-      cases args with
-      | nil => simp only [resolveArgs] at h ⊢; exact h
-      | cons a rest =>
-        cases a with
-        | expr e s1 s2 ex =>
-          simp only [resolveArgs] at h ⊢
-          cases he : eval (mkEnv st defs f c) argCtx e with
-          | error m => rw [he] at h; cases h
-          | ok y =>
-            obtain ⟨v, ac⟩ := y
-            rw [he] at h
-            rw [eval_mono _ _ (mkEnv_le st defs f c) _ _ _ he]
-            simp only at h ⊢
-            split at h
-            · rename_i hp; simp only [hp, if_true]; exact h
-            · rename_i hp
-              simp only [hp, if_false]
-              split at h
-              · cases h
-              · rename_i cv hcv
-                split at h
-                · rename_i hp2; simp only [hp2, if_true]; exact h
-                · rename_i hp2
-                  simp only [hp2, if_false]
-                  exact ihA _ _ _ _ _ _ _ h
-        | nested nm s1 s2 ex =>
-          simp only [resolveArgs] at h ⊢
-          cases hm : resolveMatch st defs f c nm argCtx with
-          | error m => rw [hm] at h; cases h
-          | ok y =>
-            obtain ⟨v, ac⟩ := y
-            rw [hm] at h
-            rw [ihM _ _ _ _ hm]
-            simp only at h ⊢
-            split at h
-            · rename_i hp; simp only [hp, if_true]; exact h
-            · rename_i hp
-              simp only [hp, if_false]
-              exact ihA _ _ _ _ _ _ _ h
-    · intro c ms argCtx acc r h
-      cases ms with
-      | nil => simp only [resolveMatches] at h ⊢; exact h
-      | cons m rest =>
-        simp only [resolveMatches] at h ⊢
-        cases hm : resolveMatch st defs f c m argCtx with
-        | error e => rw [hm] at h; cases h
-        | ok y =>
-          obtain ⟨v, ac⟩ := y
-          rw [hm] at h
-          rw [ihM _ _ _ _ hm]
-          simp only at h ⊢
-          split at h
-          · cases h
-          · rename_i rr hrr
-            exact ihMs _ _ _ _ _ h
+        resolveMatches st defs fuel (guessOf c) ms argCtx acc = .ok r) :=
+  fun fuel => ⟨(monoFam st defs fuel).mtch, (monoFam st defs fuel).args, (monoFam st defs fuel).mtchs⟩
 
 theorem resolveMatches_mono (st : Static) (defs : Defs) (fuel : Nat) (c : RCtx) (ms : List IMatch) (argCtx : ECtx) (acc : List Resolution)
     (r : List Resolution × ECtx) (h : resolveMatches st defs fuel c ms argCtx acc = .ok r) :
